@@ -552,3 +552,57 @@ UNIT_META = {
         "assumes": [],
     },
 }
+
+
+# ---------------------------------------------------------------- claims as built (override the first-draft texts above)
+PROPS["C09"].update({
+    "technique": "Kani/CBMC contracts on the real index codec, page search/update, key recovery (complete over all pages/keys/index sizes) and on the growth dispatch and bookkeeping with callees replaced by contracts (bounded) + Verus proofs of the real collision-chain lookups",
+    "claim": "Decided by contracts, for all inputs: (a) an entry moved to any larger index lands in the page and carries the partial key its original key would have had (key recovery, all 256-bit keys, all size pairs 16..=49); (b) entry/address codec is an inverse pair; (c) page insert never overwrites a live slot, replace touches only the confirmed slot, remove only a slot whose partial key matches, address overflow forces growth, nothing else in the page changes; IndexTable::get returns what the page search returns on the page the log view holds for the key's chunk; (d) the lookup chains (get_in_index, contains_partial_key_with_address) never stop at a candidate whose stored key/address differs, never skip an exact match, and terminate. Bounded (callees by contract, at most 2 stacked growths): a write plan looks the key up in the current index and then in every queued old index in order, replaces/removes the entry in the index it was found in, inserts new keys into the current index only, retries an insert that reports 'index full' after triggering growth; trigger_reindex queues the old index without touching the progress of an ongoing migration; drop_index removes exactly the drained index and restarts the scan of the next one from its first chunk. The composition into 'any number of growths interleaved with commits, reads, restarts' is a history/schedule property and is not mechanised.",
+    "level_note": "Trusted: LogWriter::insert_index contract (recorder); the log view is a harness type implementing LogQuery::with_index by contract; reads through the mmap'd file are not exercised; Column::get_value contract (assumed; its ingredients are checked boundedly under C06); U15/U22 replace IndexTable / ValueTable callees by contract stubs that assert the callee's precondition. HashColumn::reindex (the batch builder) is written but not registered (does not finish).",
+    "explanation": "U1/U2b/U3/U4: complete Kani proofs (loop bounds are program constants, inputs fully symbolic). U13: Verus, unbounded, modular. U15/U22: bounded modular dispatch proofs. Level 'other' because the end-to-end statement over histories is not mechanised.",
+    "does_not_cover": ["interleaving of reindex batches with commits and reads", "HashColumn::reindex batch builder (written, does not finish under CBMC)", "restart or crash during growth", "reads through the mmap'd index file"],
+})
+PROPS["C20"].update({
+    "level": "other",
+    "technique": "Kani/CBMC loop-free contracts on the real key recovery (complete), bounded contract on the index walk that feeds migration, Verus contract on the per-item body of migrate's closure (fragment extracted on every run)",
+    "claim": "(1) Complete: for every 32-byte hashed key, index size 16..=49 and valid address, the key that migration feeds to the destination (page number + partial key recovered by recover_key_prefix, spliced with the 26-byte key tail stored with the value) equals the source key bit for bit, and the entry's address is preserved. (2) Bounded (one 64-slot chunk, four arbitrary slots, callees by contract): iter_index_internal reports every live entry of the chunk exactly once, skipping empty slots without stopping, with the value and reference count the value table holds. (3) Verus, unbounded in rc: for an item (key, rc, value) the body of migrate's closure hands exactly rc Sets of (key, full value) to the destination, in order after everything handed over before (committed batches + pending batch), keeps the batch counter below COMMIT_SIZE, and reports the item as handled only then.",
+    "level_note": "(3) is proved on a verbatim fragment of migrate (rule R8) wrapped by a hand-written function: captured variables become &mut parameters and calls leaving the unit (push onto the change set, Db::commit_raw, mem::take, Vec::clone, timer) are replaced by contracts -- every rewrite is listed in the evidence. Column selection, copy_column / move_column (directory scans, file-name matching on str), overwrite mode and the destination's own counting (C07) are not covered.",
+    "exhaustive_tiers": [],
+    "explanation": "U1/U4 loop-free complete proofs; U16 bounded; U25 Verus over all rc. Level 'other' because file-level steps of migrate are out of reach of both back ends.",
+    "does_not_cover": ["column selection, copy_column / move_column (read_dir, str prefix matching), overwrite mode", "reference counts as stored by the destination (C07)", "iter_index_internal over more than one chunk"],
+})
+PROPS["C14"].update({
+    "technique": "Kani/CBMC contracts on the real free-list operations, metadata fan-out, btree root bookkeeping (bounded) and index page update (complete)",
+    "claim": "One-operation preservation of the structural partition: clear_slot pushes exactly the freed slot (tombstone linked to the previous head), next_free pops exactly the head and restores the previous head or extends the fill mark by one, rejects an out-of-range link without handing anything out, and marks the header dirty; removing a chain frees every part exactly once in chain order; the header record (last_removed, filled) is emitted iff either changed; an index page update touches exactly one slot; refresh_metadata / complete_plan reach every value table of a hash or btree column; a write plan unindexes an entry from the index it was found in; BTree::write_sorted_changes keeps root address and depth consistent when the root splits or collapses and releases a collapsed root node exactly once.",
+    "level_note": "Bounded (48-byte entries, fill mark <= 7, <= 3-part chain; 1/3 tables; scripted outcomes of Node::change) except the index page obligations (complete). The global invariant over histories, btree reachability and node reference counts are not covered.",
+    "does_not_cover": ["the global invariant over histories", "btree reachability / uniform depth below the root", "node reference counts", "index slot removed in the same plan as its value (caller property)"],
+})
+PROPS["C13"].update({
+    "technique": "Kani/CBMC contracts on the real validate_plan functions with LogReader::read replaced by its contract (arbitrary bytes or failure), Verus proof of the mask walk for all 2^64 masks, Kani contract on the replay sequence gate of a real DbInner",
+    "claim": "For every byte content of a log record and every index: ValueTable::validate_plan, IndexTable::validate_plan / skip_plan and RefCountTable::validate_plan return Ok or Err without panicking or reading outside their buffers; a value record accepted by validation is at most entry_size bytes (fits its slot) and is parsed into the same record kind the apply pass would parse; an index / ref-count record accepted by validation names a chunk inside the file and (ref-count) only slots inside the chunk; validation and skipping of index / ref-count chunk records consume exactly 8 + ENTRY_BYTES*popcount(mask) bytes and terminate, for every 64-bit mask (Verus, unbounded; Kani cross-checks popcount classes on the real LogReader type). Bounded (real DbInner without columns, one empty record, arbitrary ids): replay applies only the record numbered last_enacted+1; any other id stops replay and discards the remaining logs; a record is validated before it is applied.",
+    "level_note": "Trusted: LogReader::read contract (fills the buffer or fails), crc32fast constructor stub, Log::{read_next, clear_replay_logs, end_read} by contract in U21. CRC computation/comparison (LogReader::next), file discovery and ordering (Log::open: read_dir, BufReader<File>) are not covered. enact_plan is not run (mmap / 32 KiB-buffer cost); 'apply consumes what validate consumed' is proved for the record kind and length only. Eight genuine defects met by or next to these obligations were fixed (known_findings.json).",
+    "does_not_cover": ["CRC computation and comparison", "enact_plan bodies", "file discovery, ordering of log files by first record id, discarding (Log::open)"],
+})
+PROPS["C10"].update({
+    "technique": "Kani/CBMC contracts on the real packed-node decoder and representability check, Verus contract on the real recursive release walk, syntactic side condition on claim order",
+    "claim": "Reader side: unpack_node_data / unpack_node_children invert the packed-node format (data ++ LE64(child)* ++ count) for child counts 0..=3 and never panic on arbitrary input, rejecting exactly the inconsistent lengths (bounded input length). Writer side: packed_child_count accepts exactly 0..=255 (complete) and every new node's fan-out passes through it before any slot is claimed (syntactic side condition; fix 119116d). Release: write_dereference_children_plan lowers the count of every child of a removed node exactly once, recurses exactly into the children whose count reached zero, and mirrors each freed node in the free-entry list (Verus, unbounded over child lists; partial correctness).",
+    "level_note": "The packing code itself (claim_tree_values / claim_node / claim_children_to_data: std HashMaps, lock guards, recursion) is out of reach of both back ends; LogWriter::insert_ref_count (mask accumulation over a std HashMap) was attempted (U26) and does not finish under CBMC; write_address_dec_ref_plan is a contract in U18; termination of the walk needs acyclic stored trees (not proved).",
+    "does_not_cover": ["claim_tree_values / claim_node bodies", "node reference counts as stored (RefCountTable, LogWriter::insert_ref_count)", "multi-part nodes", "termination of the release walk"],
+})
+PROPS["C07"].update({
+    "technique": "Verus proof of the counter transition fragment of the real change_ref (all u32 counters) and of the overlay mirroring rules; Kani/CBMC modular contracts on the per-operation dispatch, the index search order and value iteration (bounded)",
+    "claim": "The counter transition applied by change_ref is, for every 32-bit counter: +1 (saturating into the lock value u32::MAX), locked stays locked, -1 while >= 2, and 'remove' (nothing written, false returned) when the count would reach zero (Verus). Reference / ref-counted Dereference are never mirrored in the commit overlay while Set is (Verus, U10). Bounded, callees by contract: write_existing_value_plan maps Set / Reference / Dereference on a present key to exactly one of replace / inc_ref / dec_ref(+remove) on the entry's table according to the column flags (3+1 tiers); a key is looked up in the current index and then in every queued old index before being treated as absent; operations of one commit are ordered by key only (stable: per-key order is the commit order); iter_values visits every value table and reports each live value with its count.",
+    "level_note": "The transition is proved on a verbatim fragment of change_ref's body (rule R8) wrapped by a hand-written function: the buffer handling around it (32 KiB entry buffer, to_vec) is outside Verus' subset and exhausts CBMC. Trusted: Buf::read_rc returns the stored counter (U5.rc.roundtrip, proved by Kani under C06); ValueTable::iter_while by contract.",
+    "does_not_cover": ["histories, restarts", "frame of change_ref (other entry bytes untouched)", "ValueTable::iter_while itself", "btree-indexed ref-counted columns"],
+})
+PROPS["C04"].update({
+    "technique": "Kani/CBMC contracts on the real btree node operations and root bookkeeping (array operations complete over ORDER=8; rebalance / write_sorted_changes with child I/O replaced by contracts) + Verus contracts on the real iterator repositioning functions and merge step",
+    "claim": "Node level: remove_from / shift_from preserve the order and content of the remaining separators and children and keep the node packed; number_separator / last_separator_index / need_rebalance are exact; Node::rebalance (borrow from left, borrow from right, merge; leaf and inner nodes) preserves the in-order sequence of separators and children across parent and siblings, moves exactly one separator through the parent, and releases exactly the merged-away node; the separator codec round-trips for the listed key lengths; write_sorted_changes keeps root/depth consistent on split and collapse; change sets are ordered by key only. Iterator (Verus, unbounded): when the tree moved on since the last call, next_backend re-seeks on the tree of the current record to the position the statement prescribes (after a returned key: strictly beyond it; after a seek: at it; start; end) before stepping, seek_backend / seek_backend_to_last reopen the tree and position as asked; the merge step returns whichever of the commit-overlay candidate and the backend candidate is met first in the direction of travel, lets the overlay win a tie, passes over a key removed in the overlay (recording it as the position), keeps a fetched-but-unreturned backend item for the next call, and moves last_key to the returned key or to End/Start when both sides are exhausted.",
+    "level_note": "rebalance / write_sorted_changes: child I/O and Node::change replaced by contracts. Iterator units: BTree::open, BTreeIterState::{seek, next} (the node-level walk), CommitOverlay::btree_next/prev and Vec<u8>::cmp are contracts (assumed), the `&mut self` receiver is split into its fields, the merge step is a fragment in a hand-written wrapper (rule R8). Not covered: insert / split recursion (Node::change), position() key comparison, BTreeIterState walk (exit / next over the node stack), whole-tree invariant over histories.",
+    "explanation": "Array operations: complete for every node size and position (ORDER is a program constant). rebalance: bounded family of (parent size, position, sibling sizes). Iterator units: Verus, all keys / values / directions.",
+    "does_not_cover": ["BTreeIterState::{seek, next, exit} (walk over the node stack)", "whole-tree order and uniform depth over histories", "insert / split path (Node::change)", "key comparison in position()"],
+})
+PROPS["C06"].update({
+    "claim": "Proved for all inputs: entry-header codec round trips, size/flag words never collide with the four markers (the record classifier is a partition), value_size arithmetic, SIZES strictly increasing and tier selection minimal and total. Bounded (entry sizes 32/33/48/64, <= 3 parts, empty values included): overwrite_chain in insert / replace / claimed mode emits exactly the on-disk format FMT for (key, rc=1, value, compressed) on the slots popped LIFO from the free list then taken from the fill mark, releases every surplus old part as a tombstone linked in front of the free list, and keeps filled/last_removed/dirty_header exact; query/size/partial_key_at/has_key_at map any FMT chain back to (value, flag, rc) and reject tombstones, continuation parts, zero counters and foreign keys. Bounded, callees by contract (3+1 tiers of arbitrary sizes): overwriting a present key replaces in place when the new value selects the same tier and otherwise releases the old entry and inserts into the selected tier, reporting the new address. Read-after-write, overwrite to any other length, and release-and-reuse follow by composition through FMT (on paper).",
+    "does_not_cover": ["real part size 4096 / MiB values", "lz4 / snappy themselves", "reads through the mmap'd file (only the log view is modelled)", "composition over histories of overwrites (argued through FMT, not mechanised)"],
+})
